@@ -3,6 +3,7 @@ package props
 import (
 	"fmt"
 	"regexp"
+	"sort"
 	"strings"
 	"sync"
 
@@ -206,7 +207,7 @@ func runC02(c *fw.Check) {
 	}
 	entries := gen.Catalogue()
 	all, batches := genBatches(entries, bound, 40)
-	c.Rule = fmt.Sprintf("same generated module space as C01 (all variants with <=%d deviations of a %d-production catalogue, including constructs LLVM 14 does not know) x spelling alphabet {plain, every name redundantly quoted, comments+irregular whitespace everywhere, reversed top-level order}: y=print(parse(x)) must be accepted, print(parse(y)) must equal y byte for byte, the two parsed modules must have the same structural digest (reflection walk with pointer identity made explicit), and pure respellings must print the same y. No LLVM involved. distinct = (variant, spelling).", bound, len(entries))
+	c.Rule = fmt.Sprintf("same generated module space as C01 (all variants with <=%d deviations of a %d-production catalogue, including constructs LLVM 14 does not know) x spelling alphabet {plain, every name redundantly quoted, comments+irregular whitespace everywhere, reversed top-level order}: y=print(parse(x)) must be accepted, print(parse(y)) must equal y byte for byte, the two parsed modules must have the same structural digest (reflection walk with pointer identity made explicit), and pure respellings must print the same y. The same for all two-variant modules (every ordered pair of productions, every ordered pair of <=1-deviation variants of one production, twins). No LLVM involved. distinct = (variant or pair, spelling).", bound, len(entries))
 	c.Extra["variants"] = len(all)
 	c.Extra["spellings"] = len(c02spellings)
 	fs := &failSet{}
@@ -231,6 +232,37 @@ func runC02(c *fw.Check) {
 		c.DistinctN(int64(len(acc) * len(c02spellings)))
 		c.Valid(int64(len(acc) * len(c02spellings)))
 	})
+	// two-variant modules (state carried from one entity to the next).
+	accepted := map[string]bool{}
+	pairs := genPairs(entries, true)
+	c.Extra["pair_modules"] = len(pairs)
+	fw.ParallelFor(len(pairs), func(i int) {
+		if c.OverBudget() {
+			return
+		}
+		for _, v := range pairs[i] {
+			if _, errs, pan := parseTry(gen.Module([]gen.Variant{v})); errs != "" || pan != "" {
+				return
+			}
+		}
+		if _, errs, pan := parseTry(gen.Module(pairs[i])); errs != "" || pan != "" {
+			// each part is accepted, the pair is not: acceptance is C01's business when LLVM
+			// accepts the pair; recorded here for the evidence only.
+			mu.Lock()
+			accepted["pair-not-accepted:"+pairs[i][0].Entry+"+"+pairs[i][1].Entry] = true
+			mu.Unlock()
+			return
+		}
+		bisect(fs, pairs[i], c02test)
+		c.DistinctN(int64(len(c02spellings)))
+		c.Valid(int64(len(c02spellings)))
+	})
+	var pna []string
+	for k := range accepted {
+		pna = append(pna, k)
+	}
+	sort.Strings(pna)
+	c.Extra["pairs_not_accepted_although_parts_are"] = pna
 	c.Extra["inputs_not_accepted_by_parser_skipped"] = notAccepted
 	fs.report(c)
 	if len(all) > 3 {
